@@ -51,7 +51,7 @@ COSMO_BOX = {
 }
 
 
-def gen_config(rng, force=False, mixed=False):
+def gen_config(rng, force=False, mixed=False, custom_sne=False):
     """force: the configuration with the most sampled blocks (log-space scatters, two anisotropy scatters);
     mixed: a sample in which a kinematic lens WITHOUT a slope axis precedes lenses that sample their own slope"""
     cosmology = rng.choice(["FLCDM", "FwCDM", "w0waCDM", "oLCDM", "oLCDM"])
@@ -129,7 +129,7 @@ def gen_config(rng, force=False, mixed=False):
     if has_kin and rng.random() < 0.4:
         model["sigma_v_systematics"] = True
         lo_k["sigma_v_sys_error"], up_k["sigma_v_sys_error"] = (0.001 if logsc else 0.0), 0.5
-    sne = rng.random() < 0.25
+    sne = custom_sne or rng.random() < 0.25
     if has_mag or sne:
         model["sne_apparent_m_sampling"] = True
         model["sne_distribution"] = rng.choice(["GAUSSIAN", "NONE"])
@@ -143,7 +143,21 @@ def gen_config(rng, force=False, mixed=False):
     bounds = dict(kwargs_lower_cosmo=lo_c, kwargs_upper_cosmo=up_c, kwargs_lower_lens=lo_l, kwargs_upper_lens=up_l,
                   kwargs_lower_kin=lo_k, kwargs_upper_kin=up_k, kwargs_lower_source=lo_s, kwargs_upper_source=up_s,
                   kwargs_lower_los=lo_los, kwargs_upper_los=up_los)
-    return dict(cosmology=cosmology, lenses=lenses, model=model, bounds=bounds, sne=sne, num_draws=rng.choice([2, 3]))
+    # the supernova term from a user-supplied (CUSTOM) sample of realistic size instead of the bundled binned one
+    sne_custom = {"n": rng.randint(130, 190), "seed": rng.randrange(2 ** 30)} if (sne and (custom_sne or rng.random() < 0.5)) else None
+    return dict(cosmology=cosmology, lenses=lenses, model=model, bounds=bounds, sne=sne, sne_custom=sne_custom, num_draws=rng.choice([2, 3]))
+
+
+def custom_sne_sample(spec):
+    r = np.random.RandomState(spec["seed"])
+    n = spec["n"]
+    z = np.sort(r.uniform(0.01, 1.4, n))
+    var = r.uniform(0.03, 0.08, n) ** 2
+    u = r.normal(0, 0.02, (n, 2))
+    cov = np.diag(var) + u @ u.T
+    from astropy.cosmology import FlatLambdaCDM
+    mag = 5 * np.log10(FlatLambdaCDM(H0=70, Om0=0.3).luminosity_distance(z).value) + 25 - 19.3 + r.normal(0, 1, n) * np.sqrt(var)
+    return dict(mag_mean=mag, cov_mag=cov, zhel=z, zcmb=z)
 
 
 LOGGED = {"lambda_mst_sigma", "lambda_ifu_sigma", "gamma_in_sigma", "log_m2l_sigma", "a_ani_sigma", "beta_inf_sigma",
@@ -192,6 +206,10 @@ def build(cfg):
         k = copy.deepcopy(kw)
         k["num_distribution_draws"] = cfg["num_draws"]
         ls.append(k)
+    if cfg.get("sne_custom"):
+        return CosmoLikelihood(ls, cfg["cosmology"], copy.deepcopy(cfg["model"]), copy.deepcopy(cfg["bounds"]),
+                               sne_likelihood="CUSTOM", kwargs_sne_likelihood=custom_sne_sample(cfg["sne_custom"]),
+                               interpolate_cosmo=True, num_redshift_interp=60)
     return CosmoLikelihood(ls, cfg["cosmology"], copy.deepcopy(cfg["model"]), copy.deepcopy(cfg["bounds"]),
                            sne_likelihood="Pantheon_binned" if cfg["sne"] else None, interpolate_cosmo=True, num_redshift_interp=60)
 
@@ -323,7 +341,7 @@ def oracle(cfg, cl, x, kind, lo, up):
 
 def enc(cfg, x, kind):
     return {"cfg": c07.enc({"cosmology": cfg["cosmology"], "lenses": [list(l) for l in cfg["lenses"]], "model": cfg["model"],
-                            "bounds": cfg["bounds"], "sne": cfg["sne"], "num_draws": cfg["num_draws"]}), "x": list(map(float, x)), "kind": kind}
+                            "bounds": cfg["bounds"], "sne": cfg["sne"], "sne_custom": cfg.get("sne_custom"), "num_draws": cfg["num_draws"]}), "x": list(map(float, x)), "kind": kind}
 
 
 def dec(d):
@@ -349,7 +367,7 @@ def run(ctx, res):
     ncfg = ctx.n(28, 400)
     lines, meta = [], []
     for t in range(ncfg):
-        cfg = gen_config(rng, force=(t < 2), mixed=(t in (2, 3)))
+        cfg = gen_config(rng, force=(t < 2), mixed=(t in (2, 3)), custom_sne=(t == 4))
         try:
             cl = build(cfg)
         except Exception as e:  # noqa
